@@ -905,3 +905,61 @@ func (e *Engine) isNewCode(fn *ssa.Function) bool {
 	}
 	return e.names.base[n] == nil
 }
+
+// fieldOld: struct fields that were renamed since the contracts were pinned (field object -> pinned name).
+var fieldOld = map[*types.Var]string{}
+
+func fieldName(v *types.Var) string {
+	if o, ok := fieldOld[v]; ok {
+		return o
+	}
+	return v.Name()
+}
+
+// collectTypes: the fields of every named struct type of the module.
+func collectTypes(pkgs []*types.Package) (map[string][]varInfo, map[string]*types.Struct) {
+	out := map[string][]varInfo{}
+	structs := map[string]*types.Struct{}
+	for _, p := range pkgs {
+		sc := p.Scope()
+		for _, n := range sc.Names() {
+			tn, ok := sc.Lookup(n).(*types.TypeName)
+			if !ok || tn.IsAlias() {
+				continue
+			}
+			stt, ok := tn.Type().Underlying().(*types.Struct)
+			if !ok {
+				continue
+			}
+			k := typeKey(tn.Type())
+			var fs []varInfo
+			for i := 0; i < stt.NumFields(); i++ {
+				fs = append(fs, varInfo{N: stt.Field(i).Name(), T: typeStr(stt.Field(i).Type()), D: stt.Tag(i)})
+			}
+			out[k] = fs
+			structs[k] = stt
+		}
+	}
+	return out, structs
+}
+
+// computeFieldRenames pairs renamed fields (same type, same tag, same place between unchanged neighbours).
+func computeFieldRenames(base map[string][]varInfo, cur map[string][]varInfo, structs map[string]*types.Struct) []string {
+	var notes []string
+	for k, cf := range cur {
+		bf, ok := base[k]
+		if !ok {
+			continue
+		}
+		seq := pairSeq(bf, cf)
+		stt := structs[k]
+		for j, o := range seq {
+			if o != "" && o != cf[j].N && j < stt.NumFields() {
+				fieldOld[stt.Field(j)] = o
+				notes = append(notes, fmt.Sprintf("field %s.%s is treated as the renamed %s", k, cf[j].N, o))
+			}
+		}
+	}
+	sort.Strings(notes)
+	return notes
+}
